@@ -26,7 +26,7 @@ def gen_cases(rng, tier):
             if src is None:
                 continue
             cases.append({"target": x["name"], "src": src, "entry": "meta"})
-    return recvprop.all_with_pairs(cases)
+    return recvprop.all_with_pairs(recvprop.with_groups(rng, cases))
 
 
 def run(tier, seed, replay=None):
@@ -35,13 +35,13 @@ def run(tier, seed, replay=None):
     R.proof_coverage(vlib.proof_step(prop))
     if replay:
         c = json.load(open(replay))["case"]
-        raw = [{k: c[k] for k in ("target", "src", "entry", "pairs") if k in c}]
+        raw = [{k: c[k] for k in ("target", "src", "entry", "pairs", "group_all") if k in c}]
     else:
         raw = gen_cases(R.rng, tier)
     out = convlib.run_conv_property(
         R, prop, raw, "run_recv_counted holds01 nontrivial01 %s",
         lambda c, r: recvlib.c_case_recv(recvlib.BY_NAME[c["target"]], c, r),
-        describe=lambda c: "%s on `%s`" % (c["target"], c["src"]),
+        describe=lambda c: "%s on %s" % (c["target"], recvprop.shown(c)),
         key_fn=lambda c, r: "struct-mapping",
         model_body="Eval vm_compute in (model_recv c, expected_of c).",
         failed_holds="holds01 (Exec/RecvCase.v): expected (Spec/C01.v), the per-field comprehension", header=recvlib.HEADER_RECV)
@@ -55,7 +55,7 @@ def run(tier, seed, replay=None):
         r = out["results"][c["id"]]
         R.violation("list-rejected", "the mistake-free input `%s` for %s is not parsed: darling's list parser rejects a well-formed comma list of "
                     "meta items (%s)" % (c["src"], c["target"], json.dumps(r.get("err") or r.get("ok"))[:300]),
-                    {"case": {k: c[k] for k in ("target", "src", "entry", "pairs") if k in c}, "observation": {k: v for k, v in r.items() if k not in ("or", "pf", "sim")},
+                    {"case": {k: c[k] for k in ("target", "src", "entry", "pairs", "group_all") if k in c}, "observation": {k: v for k, v in r.items() if k not in ("or", "pf", "sim")},
                      "failed": "generator ground truth: the source is a well-formed list of meta items"})
     R.coverage.update({
         "evaluations": len(keep),
